@@ -215,7 +215,7 @@ def _union_ret(stage, guard):
     return d
 
 
-@contract(R, "LogicalType.logical_parse", props=["C09", "C10", "C04", "C03", "C01"])
+@contract(R, "LogicalType.logical_parse", props=["C09", "C10", "C04", "C03", "C01", "C18"])
 class LOGICAL_PARSE:
     replay = "logical_parse"
     self_model = "LogicalClass"
@@ -277,21 +277,38 @@ for _cn in _lp_cases():
     LOGICAL_PARSE.returns_by_case[_cn] = dict({"&": _AND, "|": _UNION, "^": _XOR, "~": _NOT}[_comb])
     LOGICAL_PARSE.raises_by_case[_cn] = {k: dict(v) for k, v in {"&": _AND_RAISES, "|": _UNION_RAISES, "^": _XOR_RAISES, "~": _NOT_RAISES}[_comb].items()}
 
+# C18 (cost): conversion attempts of ONE call, counted by the ghost counter work() that every call of the transformer
+# advances by one: a union makes at most one pass over its arguments per stage that the options leave open (the
+# strict stage only if the context is not already strict, the no-loss stage only under fully lenient options, the
+# common stage always) -- so at most 3 passes, and exactly one under fully strict options
+_W = "(work() - old(work()))"
+_P2 = "(len(cls.args) if %s else 0)" % _S2
+_P3 = "(len(cls.args) if %s else 0)" % _S3
+_COST = {"|": "%s <= %s + %s + len(cls.args)" % (_W, _P2, _P3),
+         "&": "%s <= len(cls.args)" % _W, "^": "%s <= len(cls.args)" % _W, "~": "%s <= 1" % _W}
+for _cn in _lp_cases():
+    _comb = _cn.split(",")[0]
+    LOGICAL_PARSE.returns_by_case[_cn]["conversion_attempts_bounded"] = _COST[_comb]
+    LOGICAL_PARSE.raises_by_case[_cn].setdefault("ParseError", {})["conversion_attempts_bounded"] = _COST[_comb]
+
 _V0 = "old(value)"
 _TMP_GE = "len(context.tmp_errors) >= _k"
 LOGICAL_PARSE.loops = {
     0: dict(invariant={"running_value": "value is fold(cls, %s, context, _k)" % _V0,
                        "steps_accepted": "forall(_k, lambda i: fold_acc(cls, %s, context, i))" % _V0,
-                       "errors": _ERR_SAME, "tmp": "len(context.tmp_errors) == 0"},
+                       "errors": _ERR_SAME, "tmp": "len(context.tmp_errors) == 0", "cost": "%s == _k" % _W},
             modifies=["context.errors"]),
-    1: dict(invariant={"no_exact_so_far": "forall(_k, lambda i: not exact_at(cls, value, i))"}),
-    2: dict(invariant={"none_so_far": "forall(_k, lambda i: not %s)" % _acc(2, "i"), "errors": _ERR_SAME, "tmp": _TMP_GE},
+    1: dict(invariant={"no_exact_so_far": "forall(_k, lambda i: not exact_at(cls, value, i))", "cost": "%s == 0" % _W}),
+    2: dict(invariant={"none_so_far": "forall(_k, lambda i: not %s)" % _acc(2, "i"), "errors": _ERR_SAME, "tmp": _TMP_GE,
+                       "cost": "%s == _k" % _W},
             modifies=["context.tmp_errors"]),
-    3: dict(invariant={"none_so_far": "forall(_k, lambda i: not %s)" % _acc(3, "i"), "errors": _ERR_SAME, "tmp": _TMP_GE},
+    3: dict(invariant={"none_so_far": "forall(_k, lambda i: not %s)" % _acc(3, "i"), "errors": _ERR_SAME, "tmp": _TMP_GE,
+                       "cost": "%s == %s + _k" % (_W, _P2)},
             modifies=["context.tmp_errors"]),
-    4: dict(invariant={"none_so_far": "forall(_k, lambda i: not %s)" % _acc(4, "i"), "errors": _ERR_SAME, "tmp": _TMP_GE},
+    4: dict(invariant={"none_so_far": "forall(_k, lambda i: not %s)" % _acc(4, "i"), "errors": _ERR_SAME, "tmp": _TMP_GE,
+                       "cost": "%s == %s + %s + _k" % (_W, _P2, _P3)},
             modifies=["context.tmp_errors"]),
-    5: dict(invariant={"no_exact_so_far": "forall(_k, lambda i: not exact_at(cls, value, i))"}),
+    5: dict(invariant={"no_exact_so_far": "forall(_k, lambda i: not exact_at(cls, value, i))", "cost": "%s == 0" % _W}),
     6: dict(invariant={
         "none_accepted_yet": "implies(xor is None, forall(_k, lambda i: not %s) and result is value and %s and len(context.tmp_errors) >= _k)"
                              % (_acc(4, "i"), _ERR_SAME),
@@ -300,11 +317,12 @@ LOGICAL_PARSE.loops = {
                                 % (_ERR_SAME, _acc(4, "j"), _conv(4, "j"), _acc(4, "i"), _acc(4, "i"), _acc(4, "j")),
         "errors_only_grow": "len(context.errors) >= old(len(context.errors))",
         "given_input_untouched": "value is %s" % _V0,
+        "cost": "%s == _k" % _W,
     }, modifies=["context.tmp_errors", "context.errors"]),
     7: dict(invariant={"errors_only_grow": "len(context.errors) >= old(len(context.errors))",
                        "recorded_only_if_accepted": "implies(len(context.errors) > old(len(context.errors)), %s)" % _acc(4, "0"),
                        "clean_only_if_nothing_tried": "implies(_k > 0, len(context.errors) > old(len(context.errors)))",
-                       "tmp": "len(context.tmp_errors) == 0"},
+                       "tmp": "len(context.tmp_errors) == 0", "cost": "%s == _k" % _W},
             modifies=["context.errors"]),
 }
 
@@ -328,6 +346,8 @@ for _lbl in _UNION:
     LOGICAL_PARSE.clause_tags[_lbl] = ["C09", "C03", "C01"]
 LOGICAL_PARSE.clause_tags["clean"] = ["C09", "C10", "C01"]
 LOGICAL_PARSE.clause_tags["only_raises"] = ["C04"]
+LOGICAL_PARSE.clause_tags["conversion_attempts_bounded"] = ["C18"]
+LOGICAL_PARSE.clause_tags["ParseError.conversion_attempts_bounded"] = ["C18"]
 LOGICAL_PARSE.clause_tags["no_input_mutation"] = ["C19"]
 for _e, _d in list(_XOR_RAISES.items()) + list(_NOT_RAISES.items()) + list(_AND_RAISES.items()) + list(_UNION_RAISES.items()):
     for _lbl in _d:
